@@ -812,6 +812,15 @@ impl SvcParamValue {
             }
         };
 
+        // the value has to fill its declared length, otherwise it "does not have the expected
+        // format" (RFC 9460 section 2.2) and the octets left over would be lost on re-encoding
+        if !decoder.is_empty() {
+            return Err(DecodeError::IncorrectRDataLengthRead {
+                read: len - decoder.len(),
+                len,
+            });
+        }
+
         Ok(value)
     }
 }
